@@ -67,10 +67,14 @@ class SymExec(object):
             return add(self.ev(node.left), self.ev(node.right), 1 if isinstance(node.op, ast.Add) else -1)
         if isinstance(node, ast.BinOp) and isinstance(node.op, ast.Mult):
             c = const_value(node.left)
-            if isinstance(c, int):
+            if isinstance(c, float) and c.is_integer():
+                c = int(c)
+            if isinstance(c, int) and not isinstance(c, bool):
                 return scale(self.ev(node.right), c)
             c = const_value(node.right)
-            if isinstance(c, int):
+            if isinstance(c, float) and c.is_integer():
+                c = int(c)
+            if isinstance(c, int) and not isinstance(c, bool):
                 return scale(self.ev(node.left), c)
         if isinstance(node, ast.UnaryOp) and isinstance(node.op, ast.USub):
             return scale(self.ev(node.operand), -1)
